@@ -104,6 +104,7 @@ class StoreEngine(Engine):
 
     def shrink_candidates(self, scn):
         procs = scn['procs']
+        migrating = any(op['op'] == 'migrate' for p in procs for op in p['ops'])
         # drop a whole process
         for pi in range(len(procs)):
             if len(procs) > 1:
@@ -135,9 +136,10 @@ class StoreEngine(Engine):
                             c['procs'][pi]['ops'][oi]['crash']['k'] = nk
                             yield c
                 if op.get('render') and op['render'] != {'form': 'mem'}:
-                    c = copy.deepcopy(scn)
-                    c['procs'][pi]['ops'][oi]['render'] = {'form': 'mem'}
-                    yield c
+                    if not migrating:      # (migration is defined for file-based configurations only: their rendering stays a file)
+                        c = copy.deepcopy(scn)
+                        c['procs'][pi]['ops'][oi]['render'] = {'form': 'mem'}
+                        yield c
                     for k in list(op['render']):
                         if k != 'form':
                             c = copy.deepcopy(scn)
